@@ -93,6 +93,8 @@ def builtin_corpus():
             continue
         src("p(%s, f(%s), [%s]) :- %s(%s), X = %s(%s)." % ((q,) * 7))
         src("%s(a)." % q, 'head')
+    for d in ["p :- fail, 1(a).", "p :- (a -> fail), 1(a).", "p :- fail -> 1(a) ; b.", "p :- (fail ; a), 1(a).", "p(1(a)) :- fail.", "p :- fail, X = 1(a).", "p :- a, fail, 007(_).", "p :- \\+ fail, 1(a).", "p :- fail, q(a/1)."]:
+        src(d)      # numeral-named compound terms: refused only where the compiler reaches them (Comp/NumeralName.v)
     src("p(ATOM_NIL, []).", 'var'); src("p(True, False, None) :- q(True).", 'var'); src("p(Query) :- Query = query, call(Query, x).", 'var')
     src("p(V_X, X) :- q(V_X, X).", 'var'); src("p(__builtins__, __import__).", 'var'); src("p(Arg1, Arg2, a, b).", 'var'); src("p(L1, L2) :- q(L1), r(L2).", 'var')
     src("p(CutIf1, DoBreak) :- ( q(CutIf1) -> r(DoBreak) ; s ).", 'var'); src("p(_, _x, __, _1).", 'var')
